@@ -2,7 +2,7 @@
    without any progress" is renamed "BUF_ERROR" (libbz2 has no such code and
    the driver tests the two differences itself). *)
 From Coq Require Import List NArith Bool Arith Lia.
-From SqfsV Require Import C15.XfrmModel C15.XfrmSpec C15.XfrmBase.
+From SqfsV Require Import C15.XfrmModel C15.XfrmSpec C15.XfrmBase C15.XfrmDrvZlib.
 Import ListNotations.
 
 Definition unbz_stat (r : lstatus) (cons : nat) (out : list N) : lstatus :=
@@ -32,25 +32,26 @@ Qed.
 Section Bz.
 Variable S : Type.
 Variable C : codec S.
-Variable Inv : S -> list N -> list N -> Prop.     (* Rep or ERep *)
-Hypothesis NB : forall st fed del inp cap fl, Inv st fed del -> l_stat (c_step C st inp cap fl) <> LBuf.
-Hypothesis STEP : forall st fed del inp cap fl, Inv st fed del ->
+(* what is known before every call of the library inside one process_data *)
+Variable I : S -> list N -> flush -> Prop.
+Hypothesis NB : forall st inp cap fl, I st inp fl -> l_stat (c_step C st inp cap fl) <> LBuf.
+Hypothesis STEP : forall st inp cap fl, I st inp fl ->
     let r := c_step C st inp cap fl in
-    ok_or_buf (l_stat r) -> Inv (l_st r) (fed ++ firstn (l_cons r) inp) (del ++ l_out r).
+    l_stat r = LOk -> I (l_st r) (skipn (l_cons r) inp) fl.
 
-Lemma bz_eq dec : forall fuel st inp cap fl ci co fed del, Inv st fed del ->
+Lemma bz_eq dec : forall fuel st inp cap fl ci co, I st inp fl ->
   drv_bzip2 C dec fuel st inp cap fl ci co = drv_zlib (unbz S C) dec fuel st inp cap fl ci co.
 Proof.
-  induction fuel as [|f IH]; intros st inp cap fl ci co fed del HI; [reflexivity|].
+  induction fuel as [|f IH]; intros st inp cap fl ci co HI; [reflexivity|].
   cbn [drv_bzip2 drv_zlib].
   destruct ((negb (nilb inp) || is_full fl) && (0 <? cap)); [|reflexivity].
-  pose proof (NB st fed del inp cap fl HI) as HN.
-  pose proof (STEP st fed del inp cap fl HI) as HS. cbv zeta in HS.
+  pose proof (NB st inp cap fl HI) as HN.
+  pose proof (STEP st inp cap fl HI) as HS. cbv zeta in HS.
   cbn [unbz c_step c_reset c_mid l_stat l_cons l_out l_st].
   destruct (l_stat (c_step C st inp cap fl)) eqn:Hs; cbn [unbz_stat]; try congruence; try reflexivity.
   destruct (no_progress _ _) eqn:Hn.
   - reflexivity.
-  - eapply IH. apply HS. left. reflexivity.
+  - apply IH. apply HS. reflexivity.
 Qed.
 End Bz.
 
@@ -104,3 +105,96 @@ Lemma unbz_mid : mid_ok S C Rep -> mid_ok S (unbz S C) Rep.
 Proof. intros M st fed del HR. cbn. exact (M st fed del HR). Qed.
 
 End BzDec.
+
+Section BzDecTop.
+Variable Member : list N -> list N -> Prop.
+Hypothesis F : format_ok Member.
+Variable S : Type.
+Variable C : codec S.
+Variable Rep : S -> list N -> list N -> Prop.
+Hypothesis DC : dec_contract Member S C Rep true.
+Hypothesis NBUF : never_buf S C Rep.
+Hypothesis MID : mid_ok S C Rep.
+
+Lemma bz_dec_eq d fed del inp cap fl : Rep d fed del ->
+  mk_bzip2 C true d inp cap fl = mk_zlib (unbz S C) true d inp cap fl.
+Proof.
+  intro HR. unfold mk_bzip2, mk_zlib.
+  apply (bz_eq S C (fun st _ _ => exists fed del, Rep st fed del)).
+  - intros st inp' cap' fl' (fed' & del' & H). eapply NBUF; eauto.
+  - intros st inp' cap' fl' (fed' & del' & H). cbv zeta. intro Hs.
+    eexists _, _. eapply (dc_step _ _ _ _ _ DC); eauto. left. exact Hs.
+  - eauto.
+Qed.
+
+(* bzip2.c, decompressing, over every library that meets the decoder contract and has no BUF class *)
+Theorem bzip2_dec_ok : ddrv_contract Member S (mk_bzip2 C true) Rep.
+Proof.
+  pose proof (zlib_dec_ok Member F S (unbz S C) Rep (unbz_dec Member S C Rep DC)
+                          (unbz_okp S C Rep) (unbz_mid S C Rep MID)) as Z.
+  constructor.
+  - intros d fed del inp cap fl HR. rewrite (bz_dec_eq d fed del inp cap fl HR).
+    apply (dd_main _ _ _ _ Z d fed del inp cap fl HR).
+  - intros d fed del inp cap fl rem P HR. rewrite (bz_dec_eq d fed del inp cap fl HR).
+    apply (dd_valid _ _ _ _ Z d fed del inp cap fl rem P HR).
+  - apply (dd_prefix _ _ _ _ Z).
+  - apply (dd_nil _ _ _ _ Z).
+  - apply (dd_no_overrun _ _ _ _ Z).
+Qed.
+End BzDecTop.
+
+Section BzEncTop.
+Variable Member : list N -> list N -> Prop.
+Variable S : Type.
+Variable C : codec S.
+Variable ERep : S -> list N -> list N -> Prop.
+Variable mu : S -> nat.
+Variable efin : S -> Prop.
+Hypothesis EC : enc_contract Member S C ERep mu efin true.
+Hypothesis NBUF : enc_never_buf S C ERep efin.
+
+Lemma unbz_enc : enc_contract Member S (unbz S C) ERep mu efin true.
+Proof.
+  constructor; cbn [unbz c_step c_reset c_mid l_stat l_cons l_out l_st].
+  - intros. eapply (ec_bounds _ _ _ _ _ _ _ EC); eauto.
+  - intros st fed em inp cap fl HR HA H. eapply (ec_step _ _ _ _ _ _ _ EC); eauto. eapply unbz_okbuf; eauto.
+  - intros st fed em inp cap fl HR HA H.
+    assert (E : l_stat (c_step C st inp cap fl) = LEnd).
+    { destruct (l_stat (c_step C st inp cap fl)); cbn in H; try congruence.
+      destruct (no_progress _ _); discriminate. }
+    apply (ec_end _ _ _ _ _ _ _ EC st fed em inp cap fl HR HA E).
+  - intros st fed em inp cap fl HR HA H. eapply (ec_fin _ _ _ _ _ _ _ EC); eauto. eapply unbz_okbuf; eauto.
+  - intros st fed em inp cap fl HR HA Hi Hc H. eapply (ec_progress _ _ _ _ _ _ _ EC); eauto. eapply unbz_okbuf; eauto.
+  - intros st fed em inp cap fl HR HA H.
+    assert (E : l_stat (c_step C st inp cap fl) = LErr).
+    { destruct (l_stat (c_step C st inp cap fl)); cbn in H; try congruence.
+      destruct (no_progress _ _); discriminate. }
+    apply (ec_no_err _ _ _ _ _ _ _ EC st fed em inp cap fl HR HA E).
+  - intros st fed em inp cap fl HR HA H. eapply (ec_drain _ _ _ _ _ _ _ EC); eauto. eapply unbz_okbuf; eauto.
+Qed.
+
+Lemma bz_enc_eq d fed em inp cap fl : ERep d fed em -> eadm S efin d inp fl ->
+  mk_bzip2 C false d inp cap fl = mk_zlib (unbz S C) false d inp cap fl.
+Proof.
+  intros HR HA. unfold mk_bzip2, mk_zlib.
+  apply (bz_eq S C (fun st inp fl => exists fed em, ERep st fed em /\ eadm S efin st inp fl)).
+  - intros st inp' cap' fl' (fed' & em' & H & H'). eapply NBUF; eauto.
+  - intros st inp' cap' fl' (fed' & em' & H & H'). cbv zeta. intro Hs.
+    eexists _, _. split.
+    + eapply (ec_step _ _ _ _ _ _ _ EC); eauto. left. exact Hs.
+    + intro Hfin.
+      destruct (ec_fin _ _ _ _ _ _ _ EC st fed' em' inp' cap' fl' H H' (or_introl Hs) Hfin) as [-> E].
+      split; [reflexivity|]. apply length_zero_nil. rewrite skipn_length.
+      pose proof (ec_bounds _ _ _ _ _ _ _ EC st fed' em' inp' cap' FlushFull H H'). cbv zeta in H0. lia.
+  - eauto.
+Qed.
+
+(* bzip2.c, compressing *)
+Theorem bzip2_enc_ok : edrv_contract Member S (mk_bzip2 C false) ERep mu efin.
+Proof.
+  pose proof (zlib_enc_ok Member S (unbz S C) ERep mu efin unbz_enc) as Z.
+  constructor.
+  intros d fed em inp cap fl HR HA. rewrite (bz_enc_eq d fed em inp cap fl HR HA).
+  apply (ed_main _ _ _ _ _ _ Z d fed em inp cap fl HR HA).
+Qed.
+End BzEncTop.
